@@ -207,6 +207,8 @@ func runC05(c *Ctx) {
 		}
 	}
 	amfDecodeChecks(c, e, "C05.consumed", "C05.scalar", nil)
+	// the RTMP command packets are built from these values and advance by Size(): their Size() must be what they marshal
+	checkPacketSizes(c, "C05.size")
 }
 
 func onlyUndecided(s []string) []string {
